@@ -210,8 +210,12 @@ func runGroup(idBase int, m, g int) *groupResult {
 
 func c10(args []string) int {
 	run := NewRun("C10", args)
-	run.Sum.Rule = "single-request histories with the retry breaker configured (max_retries 0..3): the plain 2xx in every shape, then random per-attempt outcome sequences {2xx, 4xx, 5xx, reset with each reason, client disconnect, TerminateStream, pool connect failure / overflow, per-try and global time-outs} with retry_on/num_retries/status lists; groups of g=1..6 concurrent requests on one cluster with max_retries=m=1..3, all retrying in the same slot (threshold). Non-trivial: max_retries>0 or a retry/timeout/reset path was taken; distinct by the full description."
+	run.Sum.Rule = "single-request histories with the retry breaker configured (max_retries 0..3): the plain 2xx in every shape, then random per-attempt outcome sequences {2xx, 4xx, 5xx, reset with each reason, client disconnect, TerminateStream, pool connect failure / overflow, per-try and global time-outs} with retry_on/num_retries/status lists; groups of g=1..6 concurrent requests on one cluster with max_retries=m=1..3, all retrying in the same slot (threshold). Plus 37 histories in which the downstream sender returns an error from AppendHeaders / AppendData / AppendTrailers: every reply kind (upstream reply headers-only / with body / with trailers, filter hijack per phase, filter direct response, route direct response, no route, no host, reset / overflow / time-out replies, TerminateStream, send-filter answers, retried 503) x every sender call occurring in it. Non-trivial: max_retries>0 or a retry/timeout/reset path was taken; distinct by the full description."
 	specs := genC10(run)
+	for i, sp := range genSenderErr() { // the downstream sender fails: the gauges still return to zero
+		sp.MaxRetries = i % 3
+		specs = append(specs, sp)
+	}
 	jobs := make([]*histJob, len(specs))
 	for i, sp := range specs {
 		jobs[i] = &histJob{id: 200000 + i + 1, spec: sp}
